@@ -4,7 +4,7 @@ import re
 from analysis import (Prov, Guards, fmt, fmt_short, walk, roots, short, comparison, find_calls, callee_matches,
                       must_pass, named_switches, const_int_of, normalised_cmp, cmp_intervals)
 from facts import AnchorError, strip_closure
-from harness import Rule
+from harness import Rule, guarded
 import queryx
 import c13
 
@@ -210,5 +210,5 @@ def r4(ctx, tables):
 
 def run(ctx):
     tables = getattr(ctx, "query_tables", None) or {w: queryx.extract(ctx.facts, w) for w in ("closest", "predicate")}
-    a, b = r2_r3(ctx, tables)
-    return [r1(ctx, tables), a, b, r4(ctx, tables)]
+    G = lambda l, f, *a: guarded("C10." + l, f, ctx, *a)
+    return G("R1", r1, tables) + G("R2-R3", r2_r3, tables) + G("R4", r4, tables)
